@@ -2,6 +2,7 @@
 """Adds the 'needs' text to seeded/*/meta.json (from the table below) and regenerates seeded/README.md."""
 import json, os, glob
 NEEDS = {
+ 'C19b-only-head-component-judged': 'a name whose ".." is not the first component after -pN stripping (a/sub/../../victim at -p1, ./../victim at -p0)',
  'C15b-refused-rename-reinserts-source': 'a git rename onto an existing non-empty file (refused) whose source was edited by an earlier patch of the same push: the source entry forgets it was on disk and is rewritten in place',
  'C16b-only-renames-linked-in-distributor': '--threads >= 2, a non-rename patch with differing old/new names (old absent), another patch touching the file under its plain name, the two names on different workers',
  'C17b-goal-ignored-with-all': '-a given together with a goal argument that is unknown or already applied, with at least one patch unapplied: exit 0 and patches applied',
